@@ -77,7 +77,22 @@ func sendAllLeaves(p *gen.Program) []func(gen.Source) {
 }
 
 func c17Edit(o *mc.Explorer, p *gen.Program) (string, bool) {
-	if o.Choose(7) == 6 {
+	k := o.Choose(8)
+	if k == 7 {
+		// an origin that names a variable of the block (itself, an earlier or a later one)
+		if len(p.Vars) == 0 {
+			return "", false
+		}
+		i := o.Choose(len(p.Vars))
+		j := o.Choose(len(p.Vars))
+		d := p.Vars[i]
+		d.Origin = &gen.Call{Name: "meta", Args: []gen.Expr{gen.V(p.Vars[j].Name.Name), gen.Str(d.Name.Name)}}
+		if i == j {
+			return "origin-self-reference", true
+		}
+		return "origin-uses-var", true
+	}
+	if k == 6 {
 		leaves := sendAllLeaves(p)
 		if len(leaves) == 0 {
 			return "", false
